@@ -93,9 +93,41 @@ Lemma elem_eq_mk k x z r :
   if av_type (mk k x) =? av_type z then av_eq_single (mk k x) z else Some false.
 Proof. destruct k, z; cbn [scalar]; intros Hs; try contradiction; reflexivity. Qed.
 
-(* equality of rtosc_arg_vals_eq_single is identity except for floats *)
+(* equality of rtosc_arg_vals_eq_single is identity - for floats and doubles
+   when they are no NaN and one of the two zeroes does not occur (inrv below;
+   signed-zero-run) *)
 Definition exact (v : av) : Prop :=
-  match v with VFl _ | VD _ | VArr _ _ | VRep _ _ | VSpc _ => False | _ => True end.
+  match v with VArr _ _ | VRep _ _ | VSpc _ => False | _ => True end.
+
+(* z0: the zero pattern (+0.0 or -0.0) that does not occur *)
+Definition flgood (mb eb z0 b : Z) : Prop :=
+  0 <= b < 2 ^ (mb + eb + 1) /\ fl_isnan mb eb b = false /\ b <> z0.
+
+Lemma fl_eq_id32 z0 a b : z0 = 0 \/ z0 = 2 ^ 31 ->
+  flgood 23 8 z0 a -> flgood 23 8 z0 b -> fl_eq 23 8 a b = true -> b = a.
+Proof.
+  intros Hz0. unfold flgood, fl_eq, fl_key. change (23 + 8 + 1) with 32. change (23 + 8) with 31.
+  intros (Ha & _ & Ha0) (Hb & _ & Hb0) H. apply andb_true_iff in H as [_ H]. apply Z.eqb_eq in H.
+  pose proof (Z.div_mod a (2 ^ 31) ltac:(lia)). pose proof (Z.mod_pos_bound a (2 ^ 31) ltac:(lia)).
+  pose proof (Z.div_mod b (2 ^ 31) ltac:(lia)). pose proof (Z.mod_pos_bound b (2 ^ 31) ltac:(lia)).
+  assert (0 <= a / 2 ^ 31 < 2) by (split; [apply Z.div_pos; lia|apply Z.div_lt_upper_bound; lia]).
+  assert (0 <= b / 2 ^ 31 < 2) by (split; [apply Z.div_pos; lia|apply Z.div_lt_upper_bound; lia]).
+  rewrite (Z.mod_small (a / 2 ^ 31) 2), (Z.mod_small (b / 2 ^ 31) 2) in H by lia.
+  destruct (a / 2 ^ 31 =? 1) eqn:E1; destruct (b / 2 ^ 31 =? 1) eqn:E2; lia.
+Qed.
+
+Lemma fl_eq_id64 z0 a b : z0 = 0 \/ z0 = 2 ^ 63 ->
+  flgood 52 11 z0 a -> flgood 52 11 z0 b -> fl_eq 52 11 a b = true -> b = a.
+Proof.
+  intros Hz0. unfold flgood, fl_eq, fl_key. change (52 + 11 + 1) with 64. change (52 + 11) with 63.
+  intros (Ha & _ & Ha0) (Hb & _ & Hb0) H. apply andb_true_iff in H as [_ H]. apply Z.eqb_eq in H.
+  pose proof (Z.div_mod a (2 ^ 63) ltac:(lia)). pose proof (Z.mod_pos_bound a (2 ^ 63) ltac:(lia)).
+  pose proof (Z.div_mod b (2 ^ 63) ltac:(lia)). pose proof (Z.mod_pos_bound b (2 ^ 63) ltac:(lia)).
+  assert (0 <= a / 2 ^ 63 < 2) by (split; [apply Z.div_pos; lia|apply Z.div_lt_upper_bound; lia]).
+  assert (0 <= b / 2 ^ 63 < 2) by (split; [apply Z.div_pos; lia|apply Z.div_lt_upper_bound; lia]).
+  rewrite (Z.mod_small (a / 2 ^ 63) 2), (Z.mod_small (b / 2 ^ 63) 2) in H by lia.
+  destruct (a / 2 ^ 63 =? 1) eqn:E1; destruct (b / 2 ^ 63 =? 1) eqn:E2; lia.
+Qed.
 
 Lemma strip_prefix_app a : forall b r, strip_prefix a b = Some r -> b = a ++ r.
 Proof.
@@ -112,13 +144,33 @@ Proof.
   destruct r; [now rewrite app_nil_r|cbn in Hl; lia].
 Qed.
 
-Lemma eq_exact a z : exact a -> av_eq_single a z = Some true -> z = a.
+(* ---- the zero of each floating point type that is absent ------------------------- *)
+Section ZeroChoice.
+Variables zf zd : Z.
+Hypothesis Hzf : zf = 0 \/ zf = 2 ^ 31.
+Hypothesis Hzd : zd = 0 \/ zd = 2 ^ 63.
+
+(* values in the range of their type; floats and doubles: no NaN and not the
+   zero pattern zf resp. zd *)
+Definition inrv (v : av) : Prop :=
+  match v with
+  | VI z | VC z => - 2 ^ 31 <= z < 2 ^ 31
+  | VH z => - 2 ^ 63 <= z < 2 ^ 63
+  | VFl b => flgood 23 8 zf b
+  | VD b => flgood 52 11 zd b
+  | _ => True
+  end.
+
+Lemma eq_exact a z : exact a -> inrv a -> inrv z -> av_eq_single a z = Some true -> z = a.
 Proof.
-  destruct a, z; cbn; intros Hex H; try contradiction; try discriminate; try reflexivity;
+  destruct a, z; cbn [exact inrv av_eq_single]; intros Hex Ha Hz H;
+    try contradiction; try discriminate; try reflexivity;
     try (inversion H as [E]; apply Z.eqb_eq in E; now subst);
     try (inversion H as [E]; apply str_eqb_eq in E; now subst).
-  inversion H as [E]. repeat (apply andb_true_iff in E as [E ?]).
-  repeat match goal with Hq : (_ =? _) = true |- _ => apply Z.eqb_eq in Hq end. now subst.
+  - inversion H as [E]. repeat (apply andb_true_iff in E as [E ?]).
+    repeat match goal with Hq : (_ =? _) = true |- _ => apply Z.eqb_eq in Hq end. now subst.
+  - inversion H as [E]. f_equal. now apply (fl_eq_id32 zf).
+  - inversion H as [E]. f_equal. now apply (fl_eq_id64 zd).
 Qed.
 
 Lemma elem_eq_exact a0 z r1 r2 :
@@ -130,6 +182,10 @@ Section Conv.
 Variable o : popts.
 Variable args : list av.
 Hypothesis Hsc : Forall scalar args.
+Hypothesis Hin : Forall inrv args.
+
+Lemma nth_inrv j v : nth_error args j = Some v -> inrv v.
+Proof. intros H. eapply Forall_forall; [exact Hin|]. eapply nth_error_In; exact H. Qed.
 
 Lemma nth_scalar j v : nth_error args j = Some v -> scalar v.
 Proof. intros H. eapply Forall_forall; [exact Hsc|]. eapply nth_error_In; exact H. Qed.
@@ -269,7 +325,7 @@ Proof.
       rewrite Ea in Hrun at 1. rewrite (elem_eq_exact a0 z rest _ Hex Hzs) in Hrun.
       destruct (av_type a0 =? av_type z) eqn:Et.
       * destruct (av_eq_single a0 z) as [[|]|] eqn:Eq; [| |discriminate].
-        -- apply (eq_exact _ _ Hex) in Eq. subst z.
+        -- apply (eq_exact _ _ Hex (nth_inrv _ _ H0') (nth_inrv _ _ Ez)) in Eq. subst z.
            apply IH in Hrun; try assumption; try lia.
            ++ destruct Hrun as (n & -> & -> & Hn & Hc). exists n. repeat split; try lia. exact Hc.
            ++ intros j Hj. destruct (Nat.eq_dec j (S s)) as [->|Hne]; [assumption|apply Hch; lia].
@@ -280,13 +336,6 @@ Qed.
 End Conv.
 
 (* ---- C10_range_expand ---------------------------------------------------------------- *)
-Definition inrv (v : av) : Prop :=
-  match v with
-  | VI z | VC z => - 2 ^ 31 <= z < 2 ^ 31
-  | VH z => - 2 ^ 63 <= z < 2 ^ 63
-  | _ => True
-  end.
-
 Lemma inrv_mk k z : inrv (mk k z) -> inr k z.
 Proof. destruct k; cbn; tauto. Qed.
 
@@ -386,9 +435,9 @@ Proof.
     cbn [negb andb] in Hc.
     destruct (run_loop (length args) args size false VN 1 1) as [[skipped nc]|] eqn:Er; [|discriminate].
     assert (Ha1 : a1 = a0).
-    { destruct (av_type a0 =? av_type a1); [|discriminate]. now apply (eq_exact _ _ Hex). }
+    { destruct (av_type a0 =? av_type a1); [|discriminate]. apply (eq_exact _ _ Hex); [eapply Forall_forall; [exact Hin|]; eapply nth_error_In; exact H0|eapply Forall_forall; [exact Hin|]; eapply nth_error_In; exact E1|assumption]. }
     subst a1.
-    destruct (run_loop_const args Hsc (length args) size a0 VN 1 skipped nc Hex H0 Er ltac:(lia))
+    destruct (run_loop_const args Hsc Hin (length args) size a0 VN 1 skipped nc Hex H0 Er ltac:(lia))
       as (n & -> & -> & Hn & Hcr).
     { intros j Hj. destruct j as [|[|j]]; [assumption|assumption|lia]. }
     destruct (Z.of_nat n <? 5) eqn:E5; [discriminate|]. inversion Hc; subst c kk. clear Hc.
@@ -423,7 +472,7 @@ Proof.
       [| discriminate | discriminate].
     destruct (run_loop (length args) args size true (mk k (wr k (y - x))) 1 1) as [[skipped nc]|] eqn:Er;
       [|discriminate].
-    destruct (run_loop_delta args Hsc k (wr k (y - x)) x H0 (length args) size 1 skipped nc Er ltac:(lia))
+    destruct (run_loop_delta args Hsc Hin k (wr k (y - x)) x H0 (length args) size 1 skipped nc Er ltac:(lia))
       as (n & -> & -> & Hn & Hch).
     { intros j Hj. assert (j = 0)%nat by lia. subst j. exists x. split; [assumption|].
       rewrite Hyx. split; [exact E1|exact Ef0]. }
@@ -456,3 +505,4 @@ Proof.
   intros H1 H2 H3 H4 H5. destruct (range_expand_shape o args size c kk H1 H2 H3 H4 H5) as (n & A & B & C & _).
   exists n. repeat split; try assumption; lia.
 Qed.
+End ZeroChoice.
